@@ -366,3 +366,98 @@ def local_named_like_intrinsic(ctx):
     else:
         ctx.inconclusive.append("vacuity: correlate never completed")
     ctx.sample({"paths": E.paths})
+
+
+# ---------------------------------------------------------------------------------------
+# O5: a USE statement inside an interface body that is nested in a procedure: the names the used module RE-EXPORTS must be
+# importable there too (the used module has to be correlated first although nothing else in the scope's module uses it)
+# ---------------------------------------------------------------------------------------
+IB_USE = [("use b_mod", "ctype"), ("use b_mod, only: ctype", "ctype"), ("use b_mod, only: local_t => ctype", "local_t"),
+          ("USE B_MOD, ONLY: LOCAL_T => CTYPE", "local_t"), ("use b_mod, only: btype", "btype")]
+IB_WHERE = ["interface-in-module-procedure", "interface-in-internal-procedure", "interface-in-module"]
+
+
+def _ib_files(use, name, where):
+    body = ["interface", "subroutine worker()", use, choice.apply(lambda n: f"type({n}) :: x", name) if isinstance(name, CV) else f"type({name}) :: x",
+            "end subroutine worker", "end interface"]
+    if where == "interface-in-module":
+        a = ["module a_mod"] + body + ["end module a_mod"]
+    elif where == "interface-in-module-procedure":
+        a = ["module a_mod", "contains", "subroutine driver()"] + body + ["end subroutine driver", "end module a_mod"]
+    else:
+        a = ["module a_mod", "contains", "subroutine driver()", "contains", "subroutine inner()"] + body + \
+            ["end subroutine inner", "end subroutine driver", "end module a_mod"]
+    return {"a.f90": a,   # read first: only the dependency order makes a_mod correlate after b_mod
+            "b.f90": ["module b_mod", "use c_mod", "type btype", "integer :: b", "end type btype", "end module b_mod"],
+            "c.f90": ["module c_mod", "type ctype", "integer :: c", "end type ctype", "end module c_mod"]}
+
+
+def _ib_observe(p):
+    a = [m for m in p.modules if str(m.name).lower() == "a_mod"][0]
+    scope = a
+    for s_ in list(getattr(a, "subroutines", [])):
+        scope = s_
+        for t_ in list(getattr(s_, "subroutines", [])):
+            scope = t_
+    ifs = list(scope.interfaces)
+    if len(ifs) != 1:
+        return "MISSING"
+    w = ifs[0].procedure if hasattr(ifs[0], "procedure") else ifs[0].subroutines[0]
+    vs = list(w.variables)
+    if len(vs) != 1:
+        return "MISSING"
+    x = vs[0].proto[0]
+    return choice.apply(lambda v: None if isinstance(v, str) else (str(getattr(v.parent, "name", "")).lower(), str(v.name).lower()), x)
+
+
+def replay_ib(w):
+    import ford.sourceform as sf
+    old = sf.namelist
+    sf.namelist = sf.NameSelector()
+    try:
+        p = parserh.project_concrete(_ib_files(w["use"], w["name"], w["where"]), **CSET)
+        got = _ib_observe(p)
+    finally:
+        sf.namelist = old
+    want = ["b_mod", "btype"] if w["name"] == "btype" else ["c_mod", "ctype"]
+    return (list(got) if isinstance(got, tuple) else got) != want, {"where": w["where"], "use": w["use"], "type name": w["name"],
+                                                                     "ford_links_type": got, "standard": want}
+
+
+def _ib_ob(where):
+    @obligation("C06", "O5.use-in-interface-body." + where, engine="SX(CV)", timeout=900)
+    def ob(ctx):
+        import ford.fortran_project as fp
+        import ford.sourceform as sf
+
+        ctx.encode_fn(fp.Project.correlate)
+        ctx.encode_fn(sf.FortranCodeUnit.correlate)
+        ctx.bounds.update({"use forms": len(IB_USE), "position": where})
+
+        def h(E):
+            u = CV.choice(E, "use", IB_USE)
+            E.e.snapshot = lambda m: {"use": choice.value_in_model(m, u)[0], "name": choice.value_in_model(m, u)[1], "where": where}
+            got = parserh.project(_ib_files(u[0], u[1], where), post=_ib_observe, **CSET)
+            E.reachable("correlated")
+            E.require(choice.apply(lambda g, n: g == (("b_mod", "btype") if n == "btype" else ("c_mod", "ctype")), got, u[1]),
+                      "a name re-exported by the used module is not imported into the interface body")
+
+        E = sym.Engine(ctx, max_paths=5000, incremental=True)
+        found = E.explore(h)
+        seen = set()
+        for (label, m, pc), snap in zip(found, E.snapshots):
+            if label in seen or not snap:
+                continue
+            seen.add(label)
+            ctx.report(label, snap, replay_ib)
+        if E.reached.get("correlated"):
+            ctx.twins += 1
+        else:
+            ctx.inconclusive.append("vacuity: correlate never completed")
+        ctx.sample({"paths": E.paths})
+
+    ob.__doc__ = f"USE of a re-exporting module inside an interface body ({where}); the only USE of that module anywhere in the file: own and re-exported names are imported"
+
+
+for _w in IB_WHERE:
+    _ib_ob(_w)
